@@ -43,9 +43,17 @@ def run_unit(unit: dict) -> dict:
         if r.rc != 0:
             acc.inconclusive.append(f"db create failed rc={r.rc}")
             return acc.result()
+        if idx % 3 == 1:
+            from zmon.gen import history as hg
+
+            hg.evolve_files(root, rng)
+            if db.cli(root, "db", "reindex").rc != 0:
+                acc.inconclusive.append("db reindex after edits failed")
+                return acc.result()
+            acc.count("incrementally_updated_indexes")
         dump = db.dump_index(root)
         byz = dump.by_zid()
-        files = {rel: (root / rel).read_text() for rel in z.pages}
+        files = {rel: (root / rel).read_text() for rel in z.pages if (root / rel).exists()}
         # items whose text form is known not to round-trip (known finding): done todo whose body starts with Pn
         for wi, w in enumerate(WHERES):
             for oi, o in enumerate(ORDERS):
